@@ -81,6 +81,27 @@ func TestC09(t *testing.T) {
 	})
 }
 
+// TestC07Reader: Add/Remove/WatchList issued at harness-chosen points of the
+// reader goroutine's progress through a burst (parked in a send with the rest
+// of the burst unread, between the two records that end a watch, after j
+// receives), mixed with deletion, re-creation and re-adding of the watched
+// paths themselves. The results of the calls and WatchList after every step
+// must be those of the sequential model applied to the calls in their order.
+func TestC07Reader(t *testing.T) {
+	cfg := lifeCfg()
+	cfg.ListEvery = true
+	cfg.PBurst = 70
+	cfg.PPlug = 70
+	cfg.PRemoveNow = 30
+	cfg.PApi = 45
+	cfg.PMacro = 30
+	cfg.POnTop = 10
+	cfg.Bufs = []int{0, 0, 1, 2, 8}
+	engine.CheckE1(t, "C07", cfg, func(c *engine.Case, w *engine.World) bool {
+		return f(w, "remove-inside-burst")+f(w, "add-inside-burst") > 0 && w.M.NDeleteSelf+w.M.NMoveSelf > 0
+	})
+}
+
 func TestC10(t *testing.T) {
 	cfg := lifeCfg()
 	cfg.PBurst = 75
